@@ -2,7 +2,7 @@
    fails to compile if Props/C12.v is weakened, renamed or given other hypotheses. *)
 From Coq Require Import SpecFloat.
 Require Import Base Value Float PrintOptions ParseOptions Reader Scan Num Parser DatumProofs DepthProofs.
-Require Import ReaderProofs TokenProofs RoundtripProofs TriviaProofs ElispRoundtrip ElispTrivia PositionProofs SpanProofs.
+Require Import ReaderProofs TokenProofs RoundtripProofs TriviaProofs ElispRoundtrip ElispTrivia PositionProofs SpanProofs FuelProofs FloatFuel.
 Require Import Lexpr.Props.C12.
 
 Check (C12_four_ways :
@@ -74,6 +74,17 @@ Check (C12_items_consume_input :
   | (POk None, s') => inv W (rd s')
   | (PErr _, _) => True
   end).
+
+Check (C12_iteration_terminates :
+  forall ro alpha fast std_parse k inp n,
+  Forall (fun r => r <> PErr (XErr EFuel)) (iterate_values ro alpha fast std_parse (fuel_for inp) n (init_state k inp)) /\
+  Forall (fun r => r <> PErr (XErr EFuel)) (iterate_datums ro alpha fast std_parse (fuel_for inp) n (init_state k inp)) /\
+  (length (filter is_okb (iterate_values ro alpha fast std_parse (fuel_for inp) n (init_state k inp))) <= length inp)%nat /\
+  (length (filter is_okb (iterate_datums ro alpha fast std_parse (fuel_for inp) n (init_state k inp))) <= length inp)%nat).
+
+Check (C12_histories_total :
+  forall ro alpha fast std_parse k inp cs,
+  Forall call_ok (run_history ro alpha fast std_parse (fuel_for inp) cs (init_state k inp))).
 
 Check (C12_closer_consumed :
   let inp := bytes_events (s2b "1 2 ) 3") in
